@@ -97,3 +97,25 @@ func modeStream(r *common.Rand, rounds int) {
 		}
 	}
 }
+
+// plainStream: histories on a missing config over plain host addresses only: the
+// FileStore must answer like the in-memory Store.
+func plainStream(r *common.Rand, n int) {
+	for i := 0; i < n; i++ {
+		hc := histCase{Kind: "H", SubDir: r.Intn(4) == 0, Depth: 1 + r.Intn(2)}
+		hosts := []string{common.Pick(r, hostPool), common.Pick(r, hostPool), common.Pick(r, hostPool)}
+		for j := 0; j < 12; j++ {
+			a := common.Pick(r, hosts)
+			switch r.Intn(6) {
+			case 0, 1:
+				hc.Ops = append(hc.Ops, opx{Op: "P", Addr: a, U: genUser(r), P: genPart(r), R: common.Pick(r, []string{"", "", genPart(r)})})
+			case 2:
+				hc.Ops = append(hc.Ops, opx{Op: "D", Addr: a})
+			default:
+				hc.Ops = append(hc.Ops, opx{Op: "G", Addr: a})
+			}
+		}
+		run.Count("stream:plain-vs-memory")
+		runHistory(hc)
+	}
+}
